@@ -104,6 +104,9 @@ def o_strip_reuse(inp):
     if kind == "field":
         # a field that joins the entry after the removal has no recorded enclosing: it gets the default one
         rem.blocks[0].set_field(Field("addedlater", "new, value"))
+        # ... and the integer rule applies to it as to any field without a recorded enclosing
+        rem.blocks[0].set_field(Field("volume", "12"))
+        rem.blocks[0].set_field(Field("number", 7))
     for d, r, e in OPTION_SETS:
         if not r:
             continue
@@ -115,6 +118,13 @@ def o_strip_reuse(inp):
             want_added = "{new, value}" if d == "{" else '"new, value"'
             if _get(back, kind, "addedlater") != want_added:
                 return (("reuse:unrecorded-field-not-default-enclosed", repr(_get(back, kind, "addedlater")), repr(want_added)), nontrivial, cls)
+            for k2, v2 in (("volume", "12"), ("number", 7)):
+                if key == k2:
+                    continue
+                got2 = _get(back, kind, k2)
+                ok2 = (got2 == _enclose_ref(str(v2), d)) if e else (got2 == v2 or got2 == str(v2))
+                if not ok2:
+                    return (("reuse:unrecorded-numeric-field:integer-rule", f"{k2} = {v2!r} added after the removal -> {got2!r} (reuse, default {d!r}, enclose_integers={e})", "enclosed iff enclose_integers"), nontrivial, cls)
     return (None, nontrivial, cls)
 
 
